@@ -1,8 +1,72 @@
 (* Tree-level lowering of the control fragment of pug: what parse_program (compile nodes) stands for, written
    directly on trees (no tokens, no trim markers).  The theorems of Proofs/C02SimProofs.v are about [lower];
    the judge evaluates, for every case it sees, that parsing the compiled tokens gives the same tree up to the
-   chunking of adjacent texts ([lower_seam]) — the tie between this file and Pug/Compile.v is checked per run. *)
+   chunking of adjacent texts ([lower_seam]) — the tie between this file and Pug/Compile.v is checked per run.
+
+   Scoping discipline ([dead]): the engine never pops a variable, pug scopes the variables of an each to its body.
+   The lowering therefore admits a program only when every each-variable is mentioned inside its own loop only:
+   [dead] lists the names that may not be mentioned at the current position — the engine's own `global` and every
+   each-variable of the program that is not a variable of an enclosing each. *)
 From PV Require Import Base.Bytes Base.Escape Js.Ast Tmpl.IR Pug.Ast Pug.Compile.
+
+(* every identifier an expression mentions *)
+Fixpoint evars (e : jexpr) : list bytes :=
+  let many := fix go (l : list jexpr) : list bytes :=
+    match l with [] => [] | x :: r => evars x ++ go r end in
+  match e with
+  | JId x => [x]
+  | JNum _ | JNumF _ | JStr _ | JBool _ | JNull => []
+  | JTpl parts =>
+    (fix go (l : list (bytes + jexpr)) : list bytes :=
+       match l with [] => [] | inl _ :: r => go r | inr x :: r => evars x ++ go r end) parts
+  | JArr es | JSeq es => many es
+  | JObj kvs =>
+    (fix go (l : list (bytes * jexpr)) : list bytes :=
+       match l with [] => [] | kx :: r => evars (snd kx) ++ go r end) kvs
+  | JDot o _ => evars o
+  | JIdx o i => evars o ++ evars i
+  | JCall f args | JNew f args => evars f ++ many args
+  | JUn _ _ x => evars x
+  | JBin _ l r => evars l ++ evars r
+  | JCond c a b => evars c ++ evars a ++ evars b
+  | JAssign _ l r => evars l ++ evars r
+  | JVar x init => x :: match init with Some i => evars i | None => [] end
+  end.
+
+(* no variable of [e] is dead *)
+Definition alive (dead : list bytes) (e : jexpr) : bool := forallb (fun x => negb (mem x dead)) (evars e).
+Definition undead (xs dead : list bytes) : list bytes := filter (fun x => negb (mem x xs)) dead.
+
+(* the variables of the each loops of a tree *)
+Fixpoint each_vars (n : pnode) : list bytes :=
+  let many := fix go (l : list pnode) : list bytes := match l with [] => [] | x :: r => each_vars x ++ go r end in
+  match n with
+  | PEach v k _ b => v :: match k with Some k' => [k'] | None => [] end ++ many b
+  | PTag _ _ _ _ b | PWhile _ b | PMixinDef _ _ b | PMixinCall _ _ _ b | PBlock b => many b
+  | PCond _ c a => many c ++ match a with Some a' => each_vars a' | None => [] end
+  | PCase _ ws => (fix go (l : list (option jexpr * list pnode)) : list bytes :=
+                     match l with [] => [] | w :: r => many (snd w) ++ go r end) ws
+  | _ => []
+  end.
+
+Fixpoint has_doctype (n : pnode) : bool :=
+  let many := fix go (l : list pnode) : bool := match l with [] => false | x :: r => has_doctype x || go r end in
+  match n with
+  | PDoctype _ => true
+  | PEach _ _ _ b | PTag _ _ _ _ b | PWhile _ b | PMixinDef _ _ b | PMixinCall _ _ _ b | PBlock b => many b
+  | PCond _ c a => many c || match a with Some a' => has_doctype a' | None => false end
+  | PCase _ ws => (fix go (l : list (option jexpr * list pnode)) : bool :=
+                     match l with [] => false | w :: r => many (snd w) || go r end) ws
+  | _ => false
+  end.
+Fixpoint has_case (n : pnode) : bool :=
+  let many := fix go (l : list pnode) : bool := match l with [] => false | x :: r => has_case x || go r end in
+  match n with
+  | PCase _ _ => true
+  | PEach _ _ _ b | PTag _ _ _ _ b | PWhile _ b | PMixinDef _ _ b | PMixinCall _ _ _ b | PBlock b => many b
+  | PCond _ c a => many c || match a with Some a' => has_case a' | None => false end
+  | _ => false
+  end.
 
 Section Lower.
   Variable funcs : list bytes.
@@ -10,6 +74,8 @@ Section Lower.
 
   Definition lexpr (e : jexpr) : option targ :=
     if goodb e then match carg funcs true e with Some (_, Some a) => Some a | _ => None end else None.
+  (* an expression at a position where [dead] may not be mentioned *)
+  Definition lexprd (dead : list bytes) (e : jexpr) : option targ := if alive dead e then lexpr e else None.
 
   Fixpoint lower_list (lw : pnode -> option (list tnode)) (l : list pnode) : option (list tnode) :=
     match l with
@@ -31,40 +97,95 @@ Section Lower.
 
   Definition pipe1 (a : targ) : tpipe := ([], [[a]]).
 
-  Fixpoint lower (fuel : nat) (n : pnode) {struct fuel} : option (list tnode) :=
+  (* a collection variable as the engine's range reads it: `$c` *)
+  Definition cident (c : bytes) : bool := is_ident c && negb (known funcs c) && negb (beqb c (B "range")).
+
+  (* code: var / assignment / ++, buffered code (escaped), buffered literals (static text) *)
+  Definition lower_code (dead : list bytes) (stmts : list jstmt) (esc : bool) : option (list tnode) :=
+    match stmts with
+    | [SExpr (JAssign None (JId x) r)] =>
+      if esc || negb (is_ident x) || known funcs x then None else
+      match lexprd dead r with Some a => Some [NAction ([x], [[a]])] | None => None end
+    | [SExpr (JUn UInc _ (JId x))] =>
+      if esc || negb (is_ident x) || known funcs x || negb (goodb (JId x)) || mem x dead then None else
+      Some [NAction ([x], [[AIdent (B "__op__inc"); AVar x []]])]
+    | [SVar [JVar x (Some i)]] =>
+      if esc || negb (is_ident x) then None else
+      match lexprd dead i with Some a => Some [NAction ([x], [[a]])] | None => None end
+    | [SExpr (JStr s)] =>
+      (* a string literal is emitted escaped whatever the mode: the same as pug when escaping is on or idle *)
+      if plain_text (escape s) && (esc || beqb (escape s) s) then Some [NText (escape s)] else None
+    | [SExpr (JNum z)] => Some [NText (show_Z z)]
+    | [SExpr (JBool b)] => Some [NText (if b then B "true" else B "false")]
+    | [SExpr JNull] => Some [NAction ([], [[AIdent (B "null")]])]
+    | [SExpr e] =>
+      (* escaped buffered code only: unescaped output of an undefined value is the listed deviation F-C11-c *)
+      if printable e && esc then
+        match lexprd dead e with Some a => Some [NAction ([], [a] :: esc_cmds (negb esc))] | None => None end
+      else None
+    | _ => None
+    end.
+
+  Definition eql_pipe (ea wa : targ) : tpipe := ([], [[AIdent (B "__op__eql"); ea; wa]]).
+  Definition case_default (whens : list (option jexpr * list pnode)) : option (list pnode) :=
+    fold_left (fun acc w => match fst w with None => Some (snd w) | Some _ => acc end) whens None.
+  Definition has_when (whens : list (option jexpr * list pnode)) : bool :=
+    existsb (fun w => match fst w with Some _ => true | None => false end) whens.
+
+  (* the if / else-if chain of a case: one test `__op__eql e w` per when, the last default as the else list *)
+  Fixpoint lower_whens (lowers : list pnode -> option (list tnode)) (dead : list bytes) (e : jexpr) (ea : targ)
+           (el : list tnode) (l : list (option jexpr * list pnode)) : option (list tnode) :=
+    match l with
+    | [] => Some el
+    | (None, _) :: r => lower_whens lowers dead e ea el r
+    | (Some w, body) :: r =>
+      if goodb (JBin BSEq e w) then
+        match lexprd dead w, lowers body, lower_whens lowers dead e ea el r with
+        | Some wa, Some b, Some rest => Some [NIf (eql_pipe ea wa) b rest]
+        | _, _, _ => None
+        end
+      else None
+    end.
+
+  Definition opt_list (k : option bytes) : list bytes := match k with Some k' => [k'] | None => [] end.
+
+  Fixpoint lower (dead : list bytes) (fuel : nat) (n : pnode) {struct fuel} : option (list tnode) :=
     match fuel with
     | O => None
     | S f =>
-      let lowers := lower_list (lower f) in
+      let lowers := lower_list (lower dead f) in
       match n with
       | PComment => Some []
       | PBlock l => lowers l
       | PText s => if plain_text s then Some [NText s] else None
-      | PCode [SExpr (JAssign None (JId x) r)] false _ =>
-        if negb (is_ident x) || known funcs x then None else
-        match lexpr r with Some a => Some [NAction ([x], [[a]])] | None => None end
-      | PCode [SExpr (JUn UInc _ (JId x))] false _ =>
-        if negb (is_ident x) || known funcs x || negb (goodb (JId x)) then None else
-        Some [NAction ([x], [[AIdent (B "__op__inc"); AVar x []]])]
-      | PCode [SVar [JVar x (Some i)]] false _ =>
-        if negb (is_ident x) then None else
-        match lexpr i with Some a => Some [NAction ([x], [[a]])] | None => None end
-      | PCode [SExpr e] esc _ =>
-        (* escaped buffered code only: unescaped output of an undefined value is the listed deviation F-C11-c *)
-        if printable e && esc then
-          match lexpr e with Some a => Some [NAction ([], [a] :: esc_cmds (negb esc))] | None => None end
-        else None
+      | PDoctype v => if has_delim v then None else Some [NText (B "<!DOCTYPE " ++ v ++ B ">" ++ nl)]
+      | PCode stmts esc _ => lower_code dead stmts esc
       | PCond test cons_ alt =>
-        match lexpr test, lowers cons_ with
+        match lexprd dead test, lowers cons_ with
         | Some ta, Some th =>
           match alt with
           | None => Some [NIf (pipe1 ta) th []]
-          | Some a => match lower f a with Some el => Some [NIf (pipe1 ta) th el] | None => None end
+          | Some a => match lower dead f a with Some el => Some [NIf (pipe1 ta) th el] | None => None end
           end
         | _, _ => None
         end
+      | PCase e whens =>
+        if negb (has_when whens) then None else
+        match lexprd dead e, (match case_default whens with Some b => lowers b | None => Some [] end) with
+        | Some ea, Some el => lower_whens lowers dead e ea el whens
+        | _, _ => None
+        end
+      | PEach v k (JId c) body =>
+        (* the collection is a plain variable; the loop variables are distinct, dead outside and alive inside *)
+        let kk := opt_list k in
+        if negb (is_ident v) || negb (forallb is_ident kk) || negb (cident c) || mem c dead
+           || negb (mem v dead) || negb (forallb (fun x => mem x dead) kk) || mem v kk then None else
+        match lower_list (lower (undead (v :: kk) dead) f) body with
+        | Some b => Some [NRange (kk ++ [v], [[AVar c []]]) b []]
+        | None => None
+        end
       | PWhile test body =>
-        match lexpr test, lowers body with
+        match lexprd dead test, lowers body with
         | Some ta, Some b => Some [NRange (pipe1 ta) b []]
         | _, _ => None
         end
@@ -81,7 +202,14 @@ Section Lower.
       end
     end.
 
+  (* what may not be mentioned at the top level: the engine's `global` and every each-variable *)
+  Definition dead0 (ns : list pnode) : list bytes := B "global" :: each_vars (PBlock ns).
+
+  (* a doctype's text ends in a line feed, which the lexer removes in front of an action with a left trim marker; in
+     this fragment only the tests of a case carry one, so the two do not meet in one program *)
+  Definition trim_clash (ns : list pnode) : bool := existsb has_doctype ns && existsb has_case ns.
+
   Definition lower_nodes (ns : list pnode) : option (list tnode) :=
-    lower (S (S (pnode_size (PBlock ns)))) (PBlock ns).
+    if trim_clash ns then None else lower (dead0 ns) (S (S (pnode_size (PBlock ns)))) (PBlock ns).
 
 End Lower.
